@@ -64,16 +64,21 @@ func semanticTokensForTraversal(traversal hcl.Traversal, src []byte) []lang.Sema
 			})
 		case hcl.TraverseAttr:
 			rng := t.SourceRange()
+			// omit the initial '.' and any blanks between it and the name
+			skip := 1
+			for rng.Start.Byte+skip < rng.End.Byte && rng.Start.Byte+skip < len(src) &&
+				(src[rng.Start.Byte+skip] == ' ' || src[rng.Start.Byte+skip] == '\t') {
+				skip++
+			}
 			tokens = append(tokens, lang.SemanticToken{
 				Type:      lang.TokenReferenceStep,
 				Modifiers: []lang.SemanticTokenModifier{},
 				Range: hcl.Range{
 					Filename: rng.Filename,
-					// omit the initial '.'
 					Start: hcl.Pos{
 						Line:   rng.Start.Line,
-						Column: rng.Start.Column + 1,
-						Byte:   rng.Start.Byte + 1,
+						Column: rng.Start.Column + skip,
+						Byte:   rng.Start.Byte + skip,
 					},
 					End: rng.End,
 				},
